@@ -427,6 +427,16 @@ def case_gufunc(ctx, inp):
         ctx.note("numpy-rejects")
         return
     odt = ("f8",) * nout if nout > 1 else "f8"
+    form = inp.get("odt_form", "plain")
+    if form == "tuple" and nout == 1:
+        odt = ("f8",)            # a one-element tuple/list is accepted for a single output
+    elif form == "list":
+        odt = ["f8"] * nout
+    elif form == "infer":
+        odt = None               # inferred by calling the function on dummy data
+    elif form == "meta":
+        odt = None
+        kw["meta"] = tuple(np.empty((0,), dtype="f8") for _ in range(nout)) if nout > 1 else np.empty((0,), dtype="f8")
     try:
         r = da.apply_gufunc(fn, sig, *ds, vectorize=True, output_dtypes=odt, allow_rechunk=inp.get("allow_rechunk", False), **kw)
     except ValueError as e:
@@ -560,7 +570,8 @@ def gen_gufunc(rng):
             else:
                 cc.append([core[c]])
         arrays.append({"shape": ls + [core[c] for c in cd], "chunks": lc + cc})
-    inp = {"sig": sig, "arrays": arrays, "allow_rechunk": allow, "core_multi": core_multi}
+    inp = {"sig": sig, "arrays": arrays, "allow_rechunk": allow, "core_multi": core_multi,
+           "odt_form": rng.choice(["plain", "plain", "tuple", "list", "infer", "meta"])}
     if sig == "(i)->(k)":
         inp["output_sizes"] = {"k": 2}
     return inp
